@@ -260,11 +260,14 @@ class Importance(Generic[R], SMCAlgorithm[R]):
 
     def run_csmc(self, key: PRNGKey, retained: ChoiceMap):
         key, sub_key = jrandom.split(key)
+        target_trace, target_score = self.target.importance(key, retained)
         if self.q:
             q_score = self.q.estimate_logpdf(sub_key, retained, self.target)
         else:
-            q_score = 0.0
-        target_trace, target_score = self.target.importance(key, retained)
+            # the retained choices stand for a draw from the internal proposal
+            q_score = target_trace.project(
+                sub_key, ~self.target.constraint.get_selection()
+            )
         return ParticleCollection(
             jtu.tree_map(lambda v: jnp.expand_dims(v, axis=0), target_trace),
             jnp.array([target_score - q_score]),
@@ -329,6 +332,10 @@ class ImportanceK(Generic[R], SMCAlgorithm[R]):
             )(sub_keys, ChoiceMap.empty())
             retained_trace, retained_choice_score = self.target.importance(
                 key, retained
+            )
+            # the retained choices stand for a draw from the internal proposal
+            retained_choice_score = retained_choice_score - retained_trace.project(
+                key, ~self.target.constraint.get_selection()
             )
             target_scores = jtu.tree_map(
                 stack_to_first_dim, ignored_scores, retained_choice_score
